@@ -507,6 +507,16 @@ def check_heap(rep, repo: Repo, pre: str = "") -> None:
           and has_guard(e.guards, mk_not(white))]
     rep.fn(pre + "H5-update-white", w.entry, "update inserts elements that were never queued", len(ins) == 1,
            "a WHITE element must be inserted by update")
+    def colour_fact(f):
+        return f[0] == "cmp" and f[1] in ("==", "!=") and ("idx", COLOR, pup) in (f[2], f[3]) and \
+            any(x[0] == "K" and x[1] in ("WHITE", "GRAY", "BLACK") for x in (f[2], f[3]))
+
+    for e in up:
+        extra = [f for f in facts(e.guards) if not colour_fact(f)]
+        rep.ev(pre + "H5-update-sift-guard", e, not extra,
+               "" if not extra else f"the sift-up of a queued element is conditional on '{show(extra[0])[:80]}': whether an improved "
+               "key moves towards the root may depend only on the element's colour (a direction chosen by comparing costs must "
+               "follow the policy: under the other policy the improved element is not lifted)")
     rep.fn(pre + "H5-update-sift", w.entry, "update sifts a queued element up from its position", len(up) == 1,
            "a queued element must be sifted up from pos[p] after its cost improved")
     if cs and (ins or up):
